@@ -26,7 +26,8 @@ def collect(chk, exe, iterations):
                  env={"SECP256K1_ZKP_VERIF_TRACE": path})
     if p.returncode != 0:
         raise Infra("the repository's musig tests failed under the hook build (not a property verdict):\n" + p.stdout[-1500:])
-    evs = vlib.read_ndjson(path)
+    # (the context life-cycle hooks write Ctx* events into the same file; they belong to C20)
+    evs = [e for e in vlib.read_ndjson(path) if e.get("e") in ("NonceGen", "NonceGenCounter", "PartialSign")]
     # pure renaming: pointers -> small integers by first occurrence; NULL -> object 0 with class 3
     ptr = {}
     for e in evs:
